@@ -144,6 +144,8 @@ def coq_arg(t, tags):
         return '(ABytes %s)' % cb(bytes.fromhex(t['y']))
     if 'z' in t:
         return '(ABytes (rp 0 %d))' % t['z']
+    if t.get('o') == 'bytearray0':
+        return '(ABytes [])'
     return 'AOther'
 
 
@@ -190,10 +192,12 @@ HEADER = ('From Coq Require Import ZArith QArith List. Import ListNotations.\n'
 
 ADDRS = ['/x', '/ab', '/abc', '/abcd', '/s_new', '/n_set', '/d_recv', '/b_allocRead', '/sync', '/abcdefg', '/abcdefgh']
 ODD_ADDRS = ['/é', 'foo', '/a€b']
-FLOATS = [0.0, -0.0, 1.0, 1.5, -2.25, 440.0, 0.1, 1e-3, 3.0e38, 1e-45, float('inf'), -7.0, 0.25, 2.0 ** -20]
+FLOATS = [0.0, -0.0, 1.0, 1.5, -2.25, 440.0, 0.1, 1e-3, 3.0e38, 1e-45, float('inf'), -7.0, 0.25, 2.0 ** -20,
+          float('-inf'), 2.0 ** -126, 2.0 ** -127, 2.0 ** -149, 2.0 ** -150, 5e-324, -5e-324, 1e-46,
+          (2.0 - 2.0 ** -23) * 2.0 ** 127, -(2.0 - 2.0 ** -23) * 2.0 ** 127]      # binary32 edges: min normal, denormals, max
 INTS = [0, 1, -1, 2, 57110, 1000, 2 ** 31 - 1, -2 ** 31, 255, 256, 65535, -65536]
 UNI = ['é', '€', '\U0001d11e', 'a', 'ñ', '中', 'z', '\U0001f3b5']
-LATS = [None, I(0), Fl(0.0), Fl(0.5), Fl(0.25), I(1), Fl(-1.0), Fl(1.5), I(2), Fl(0.2)]
+LATS = [None, I(0), Fl(0.0), Fl(0.5), Fl(0.25), I(1), Fl(-1.0), Fl(1.5), I(2), Fl(0.2), False, True, Fl(-0.0)]
 
 
 def g_str(rng):
@@ -332,6 +336,25 @@ def malform(rng, t):
     return t, 'none'
 
 
+BASE_OFFSET = 3913056000 << 32        # the offset harness/impl/c06_osc.py gives SystemClock for the base-class interface
+
+
+def expected_tags(itf, send_time, t, out):
+    """the timetag of every list head that is a number or None (DFS preorder), transcribed from the
+    documentation of send_bundle: None or negative -> immediately (1; 0 in NRT), otherwise
+    now + latency in 32.32 fixed point.  The float operations are the ones the library performs,
+    so the comparison is exact."""
+    if isinstance(t, list):
+        if t and is_numhead(t[0]):
+            v = pyval(t[0])
+            if itf == 'base':
+                out.append(1 if v is None or v < 0.0 else int((v + send_time) * 4294967296.0) + BASE_OFFSET)
+            else:       # NRT, called from outside a routine: absolute time
+                out.append(int((0.0 if v is None or v < 0.0 else v) * 4294967296.0))
+        for x in t:
+            expected_tags(itf, send_time, x, out)
+
+
 def build_cases(ctx):
     rng = ctx.rng
     cases = []
@@ -349,6 +372,41 @@ def build_cases(ctx):
         add('msg', [S('/s'), S(''.join(UNI[(n + j) % len(UNI)] for j in range(n)))], 'str_len_utf8')
         add('msg', [S('/' + 'a' * n), I(n)], 'addr_len')
         add('msg', [S('/t')] + [I(j) for j in range(n)], 'ntags')
+    # every falsy value, explicitly, in every position (type-exact: the comparison is on the bytes)
+    falsy = [None, False, I(0), Fl(0.0), Fl(-0.0), S(''), [], Y(b''), {'o': 'tuple0'}, {'o': 'emptydict'}, {'o': 'bytearray0'}, True]
+    for v in falsy:
+        add('msg', [S('/x'), v], 'falsy_only')
+        add('msg', [S('/x'), v, I(7)], 'falsy_first')
+        add('msg', [S('/x'), I(7), S('a'), v], 'falsy_last')
+        add('msg', [S('/x'), S('['), v, S(']'), I(1)], 'falsy_in_array')
+        add('msg', [S('/x'), S('['), S('['), v, v, S(']'), S(']')], 'falsy_in_nested_array')
+        add('msg', [S('/d_recv'), Y(b'ab'), [S('/y'), v]], 'falsy_in_completion')
+        add('msg', [S('/x'), [S('/y'), [S('/z'), v, I(1)]]], 'falsy_in_nested_completion')
+        add('msg', [S('/x'), [None, [S('/y'), v]]], 'falsy_in_bundle_blob')
+        add('bundle', [Fl(0.2), [S('/x'), v]], 'falsy_in_bundle')
+        add('bundle', [I(0), [S('/a'), I(1)], [Fl(0.0), [S('/x'), v, I(1)], [S('/b'), v]]], 'falsy_in_nested_bundle')
+    times = [None, False, True, I(0), Fl(0.0), Fl(-0.0), I(1), Fl(-1.0), Fl(0.5), I(-1)]
+    for t in times:
+        for itf in ('nrt', 'base'):
+            for st in (0.0, 1.5):
+                add('bundle', [t, [S('/a'), I(1)]], 'time_top')
+                cases[-1].update({'itf': itf, 'send_time': st})
+        add('msg', [S('/x'), [t, [S('/y')]], I(2)], 'time_in_bundle_blob')
+        add('bundle', [t], 'time_empty_bundle')
+        for t2 in times:
+            add('bundle', [t, [S('/a')], [t2, [S('/b'), I(0)]]], 'time_nested')
+    # lengths around 127/128/255/256 (strings, blobs, addresses, number of arguments)
+    for n in (127, 128, 129, 255, 256, 257):
+        add('msg', [S('/s'), S('a' * n)], 'len_edge_str')
+        add('msg', [S('/b'), Y(g_bytes(rng, n))], 'len_edge_blob')
+        add('msg', [S('/' + 'a' * (n - 1)), I(1)], 'len_edge_addr')
+        add('msg', [S('/t')] + [I(j % 7) for j in range(n)], 'len_edge_ntags')
+    # flattening + time sort of OscPacket: a later nested bundle before an earlier message, ties keep their order
+    add('bundle', [Fl(0.0), [Fl(0.5), [S('/late1')], [S('/late2')]], [S('/now1')], [Fl(0.5), [S('/late3')]], [S('/now2')], [Fl(0.25), [S('/mid')]]], 'packet_order')
+    cases[-1]['itf'] = 'base'
+    # the uint64 edges of the timetag (OscBundleBuilder with a given timetag)
+    for tt in (0, 1, 2, 2 ** 32 - 1, 2 ** 32, 2 ** 63, 2 ** 64 - 1, 2 ** 64, -1):
+        cases.append({'kind': 'rawbundle', 'tt': str(tt), 'v': [None, [S('/a'), I(1)], [S('/b')]], 'send_time': 0.0, 'itf': 'base', 'cls': 'timetag_edge'})
     add('msg', [S('/x')], 'noargs')
     add('msg', [S('/x'), None, True, False, []], 'coercions')
     add('msg', [S('/x'), S('['), I(1), S('['), Fl(2.0), S(']'), S('a'), S(']'), I(3)], 'arrays')
@@ -359,15 +417,18 @@ def build_cases(ctx):
     add('bundle', [Fl(0.5), [S('/a'), I(1)], [Fl(0.5), [S('/b')]], [I(1), [S('/c'), S('é')], [Fl(1.5), [S('/d')]]]], 'nested_bundle')
     add('bundle', [None, [None, [S('/a')]], [Fl(0.1), [S('/b')]]], 'nested_bundle')
     add('bundle', [Fl(0.2), [S('foo'), I(1)], [S('/ok'), I(2)]], 'noslash_in_bundle')
-    nm = ctx.n(260, 4000)
+    nm = ctx.n(200, 4000)
     for _ in range(nm):
         add('msg', g_msg(rng, rng.choice([0, 1, 2, 3, 4])), 'random_msg')
-    for _ in range(ctx.n(140, 2000)):
+    for _ in range(ctx.n(110, 2000)):
         add('bundle', g_bundle(rng, rng.choice([1, 2, 3, 4])), 'random_bundle')
-    for _ in range(ctx.n(160, 2000)):
+    for _ in range(ctx.n(120, 2000)):
         base = g_msg(rng, rng.choice([0, 1, 2])) if rng.random() < 0.6 else g_bundle(rng, rng.choice([1, 2, 3]))
         t, kind = malform(rng, base)
         add('msg' if (isinstance(t[0], dict) and 's' in t[0]) else 'bundle', t, 'malformed:' + kind)
+    for n in ([65496, 65503] if ctx.quick else list(range(65492, 65509, 3))):
+        add('msg', [S('/s'), S('a' * n), I(1)], 'large_str', parse=False)
+        cases[-1]['itf'] = 'nrt'
     # large blobs around the clump size and the UDP limit
     for n in ([8191, 65476, 65485] if ctx.quick else [8188, 8189, 8191, 8192, 65476, 65480, 65483, 65484, 65485, 65504]):
         add('msg', [S('/d_recv'), Y(bytes(n)), None], 'large_blob', parse=False)
@@ -387,6 +448,16 @@ def clump_cases(ctx):
         sizes = sorted({rng.choice([17, 24, 28, 32, 36, 40, 44, 48, 52, 56, 60, 64, 72, 80, 100, 128, 200]) for _ in range(4)})
         cases.append({'kind': 'bundle', 'v': [rng.choice([None, Fl(0.2)])] + els, 'send_time': 0.0, 'itf': 'nrt',
                       'clump': sizes, 'cls': 'clump_small', 'parse': False})
+    # exact boundaries of the accumulation test (>= vs >): sizes equal to the running predicted totals and +-4
+    for _ in range(ctx.n(6, 60)):
+        els = [[S(rng.choice(['/x', '/abc', '/abcd'])), I(j)] + ([Y(g_bytes(rng))] if rng.random() < 0.5 else []) + ([S('éa')] if rng.random() < 0.3 else [])
+               for j in range(rng.randint(2, 7))]
+        acc, sizes = 16, set()
+        for e in els:
+            acc += 4 + enc_size(e)
+            sizes.update([acc - 4, acc, acc + 4, 16 + 4 + enc_size(e), 16 + 4 + enc_size(e) + 4])
+        cases.append({'kind': 'bundle', 'v': [rng.choice([None, I(0), Fl(0.2)])] + els, 'send_time': 0.0, 'itf': 'nrt',
+                      'clump': sorted(sizes), 'cls': 'clump_exact', 'parse': False})
     # first element alone exceeds the clump size
     cases.append({'kind': 'bundle', 'v': [Fl(0.2), [S('/big'), Y(bytes(9000))], [S('/x')]], 'send_time': 0.0, 'itf': 'nrt',
                   'clump': [8192], 'cls': 'clump_first_big', 'parse': False})
@@ -427,7 +498,14 @@ def mutate_dgram(rng, d):
     return bytes(d)
 
 
+def _hb(tt, *elems):
+    return b'#bundle\0' + struct.pack('>Q', tt) + b''.join(struct.pack('>i', len(e)) + e for e in elems)
+
+
 HAND_DGRAMS = [
+    _hb(9, _hb(5, b'/a\0\0,\0\0\0'), b'/b\0\0,\0\0\0', _hb(9, b'/c\0\0,\0\0\0'), _hb(1, b'/d\0\0,\0\0\0', b'/e\0\0,\0\0\0'),
+        _hb(0, b'/f\0\0,\0\0\0'), b'/g\0\0,\0\0\0', _hb(2 ** 64 - 1, b'/h\0\0,\0\0\0')),
+    b'/x\0\0,[i[ii]i]\0\0\0' + struct.pack('>iiii', 1, 2, 3, 4),
     b'/x\0\0,\0\0\0', b'/x\0\0', b'/x\0\0,TF\0', b'/x\0\0,iT[F]\0\0' + struct.pack('>i', 7),
     b'/x\0\0,d\0\0' + struct.pack('>d', 1.5), b'/x\0\0,tr\0' + struct.pack('>Q', 5) + struct.pack('>I', 0xff000001),
     b'/x\0\0,m\0\0' + bytes([1, 144, 60, 100]), b'/x\0\0,N?i\0\0\0\0' + struct.pack('>i', -1),
@@ -466,7 +544,7 @@ def enc_size(t):
 
 
 COMPLETIONS = [
-    None,
+    None, [], I(0), False, S(''), Fl(-0.0),
     [S('/s_new'), S('c06def'), I(1001), I(0), I(1)],
     [S('/b_setn'), I(0), I(0), I(7), Y(bytes(range(1, 8)))],
     [S('/n_set'), I(1001), S('ñé'), Fl(1.5)],
@@ -479,9 +557,9 @@ def site_cases(ctx):
     rng = ctx.rng
     cases = []
     k = 0
-    targets = [MAX_UDP - 4, MAX_UDP, MAX_UDP + 4] if ctx.quick else [MAX_UDP - 8, MAX_UDP - 4, MAX_UDP, MAX_UDP + 4, MAX_UDP + 8]
+    targets = [MAX_UDP - 4, MAX_UDP, MAX_UDP + 4] if ctx.quick else list(range(MAX_UDP - 36, MAX_UDP + 12, 4))
     for comp in COMPLETIONS:
-        csize = 4 if comp is None else 4 + enc_size(comp)
+        csize = 4 + enc_size(comp) if isinstance(comp, list) and comp else ((len(comp['s'].encode()) // 4 + 1) * 4 if isinstance(comp, dict) and 's' in comp else 4)
         for T in targets:
             for adj in ([0, -1] if ctx.quick else [0, -1, -2, -3]):
                 L = T - 16 - csize + adj          # '/d_recv' 8 + ',b?' 4 + blob size 4
@@ -497,7 +575,7 @@ def site_cases(ctx):
     cases.append({'kind': 'dsend', 'L': 70000, 'comp': None, 'via': 'send', 'local': False, 'cls': 'dsend_remote'})
     cases.append({'kind': 'dsend', 'L': 1000, 'comp': COMPLETIONS[1], 'via': 'send', 'local': False, 'cls': 'dsend_remote'})
     for _ in range(ctx.n(4, 60)):
-        comp = rng.choice(COMPLETIONS[1:]) if rng.random() < 0.7 else g_msg(rng, 2, addrs=ADDRS)
+        comp = rng.choice([x for x in COMPLETIONS if isinstance(x, list) and x]) if rng.random() < 0.7 else g_msg(rng, 2, addrs=ADDRS)
         cases.append({'kind': 'dsend', 'L': rng.choice([1, 2, 3, 4, 1000, 8191, 30000, MAX_UDP - 4 - 16 - 4 - enc_size(comp) + rng.randint(-6, 6)]),
                       'comp': comp, 'via': rng.choice(['send', '_do_send']), 'comp_fn': rng.random() < 0.3, 'cls': 'dsend_random'})
 
@@ -519,14 +597,25 @@ def site_cases(ctx):
                                                       for _ in range(20)]):
             es = elems(per, total)
             # land exactly around the limit: trim the last blob
-            cases.append({'kind': kind, 'time': rng.choice([None, Fl(0.2)]), 'els': es, 'via': via, 'cls': kind + '_' + via})
+            cases.append({'kind': kind, 'time': rng.choice([None, Fl(0.2), I(0), Fl(0.0), False, Fl(-0.0)]), 'els': es, 'via': via, 'cls': kind + '_' + via})
         # exact boundary: predicted total = lim - 4, lim, lim + 4
-        for d in ((-4, 0, 4) if kind == 'clumped' else (-4, 0, 4, 24, 36)):
+        for d in (((-36, -4, 0, 4) if kind == 'clumped' else (-36, -4, 0, 4, 24, 36)) if ctx.quick else range(-40, 44, 4)):
             es = elems(5000, lim - 6000, jitter=False)
             rest = lim + d - (16 + sum(4 + enc_size(e) for e in es))
             n = rest - 4 - (8 + 4 + 4)          # element prefix, '/last' + ',b' + blob size
             es.append([S('/last'), Y(bytes(n))])
-            cases.append({'kind': kind, 'time': Fl(0.2), 'els': es, 'via': 'direct', 'cls': kind + '_exact%+d' % d})
+            cases.append({'kind': kind, 'time': rng.choice([Fl(0.2), I(0), Fl(0.0), False]), 'els': es, 'via': 'direct', 'cls': kind + '_exact%+d' % d})
+    # Server.bind(): latency taken from the server (falsy latencies included), every exit path of the context
+    for t in (None, I(0), Fl(0.0), Fl(0.2)):
+        cases.append({'kind': 'clumped', 'time': t, 'els': elems(3000, MAX_UDP + 100), 'via': 'ctx_server', 'cls': 'bind_server'})
+        cases.append({'kind': 'clumped', 'time': t, 'els': elems(30, 200), 'via': 'ctx_server', 'cls': 'bind_server'})
+    for via in ('ctx_raise', 'ctx_raise_base'):
+        cases.append({'kind': 'clumped', 'time': Fl(0.2), 'els': elems(30, 200), 'via': via, 'cls': 'bind_' + via})
+    # plain send_msg: falsy values in every position, many arguments (Buffer.send_list sends 1626 floats per message)
+    for v in ([S('/x'), I(0), Fl(0.0), Fl(-0.0), False, S(''), [], None, True, [S('/y'), I(0), [], S('')]],
+              [S('/b_setn'), I(0), I(0), I(1626)] + [Fl(((j * 37) % 256 - 128) / 128.0) for j in range(1626)],
+              [S('/b_setn'), I(0), I(1626), I(3)] + [Fl(0.0), Fl(-0.0), Fl(1.0)]):
+        cases.append({'kind': 'sendmsg', 'v': v, 'cls': 'sendmsg'})
     cases.append({'kind': 'sync', 'time': None, 'els': [], 'via': 'direct', 'cls': 'sync_empty'})
     cases.append({'kind': 'clumped', 'time': None, 'els': [[None, [S('/a'), I(1)]], [S('/b')]], 'via': 'direct', 'cls': 'clumped_nested_none'})
     return cases
@@ -537,7 +626,8 @@ def check_sites(ctx, c):
     cases = site_cases(ctx)
     # refine the real-definition cases once the size of the real definition is known
     probe = ctx.impl('c06_osc', {'cases': [{'kind': 'dsend', 'L': None, 'comp': None, 'via': '_do_send'}]})['out'][0]
-    real_len = len(bytes.fromhex(probe['def_bytes']['y'])) if 'y' in probe['def_bytes'] else probe['def_bytes']['z']
+    db = probe.get('def_bytes') or {'z': 184}       # (a crash of the probe is reported with the cases below)
+    real_len = len(bytes.fromhex(db['y'])) if 'y' in db else db['z']
     for k in cases:
         if k.get('cls') == 'dsend_real_def':
             pad = (real_len + 3) // 4 * 4
@@ -591,6 +681,12 @@ def check_sites(ctx, c):
                         raise osc10.Osc10Error('decodes to different values')
                 except (osc10.Osc10Error, AssertionError, StopIteration, ValueError) as e:
                     fail('C06:site_roundtrip', '%s: the datagram sent for %s %s' % (k['kind'], desc, e), k, {'sent_bytes': real}, 'osc10_agrees')
+        if o.get('mutated'):
+            fail('C06:argument_mutated', 'the use site %s modified the list(s) passed by the caller' % k['kind'], k, {}, None)
+        if k['kind'] == 'sendmsg':
+            if len(calls) != 1 or calls[0]['args'] != k['v'] or len(calls[0].get('dgrams', [])) != 1:
+                fail('C06:sendmsg_differs', 'send_msg did not send exactly the message it was given: %s' % show(k['v'])[:200], k, {}, 'msg_roundtrip')
+            continue
         if k['kind'] == 'dsend':
             comp = k['comp']
             intended = [S('/d_recv'), o['def_bytes'], comp]
@@ -612,6 +708,20 @@ def check_sites(ctx, c):
             ch_idx.append(k)
         else:
             sync = k['kind'] == 'sync'
+            via = k.get('via', 'direct')
+            if via.startswith('ctx_'):
+                # Server.bind(): swapped inside, restored on every exit path, the next message goes out directly
+                after = calls[-1] if calls else None
+                if not o.get('addr_swapped') or not o.get('addr_restored') or after is None or after['args'] != [S('/after'), I(0)] or after['method'] != 'send_msg':
+                    fail('C06:bind_state', 'Server.bind(): address not swapped/restored or the next message did not go out directly (%s)'
+                         % {x: o.get(x) for x in ('addr_swapped', 'addr_restored', 'raised')}, k, {}, None)
+                calls = calls[:-1]
+                if via != 'ctx_server':
+                    if calls:
+                        fail('C06:bind_sends_on_exception', 'Server.bind() sent %d bundle(s) although the block raised' % len(calls), k, {}, None)
+                    continue
+                if o.get('calls_in_ctx'):
+                    fail('C06:bind_state', 'messages went out while the bind() context was open', k, {}, None)
             got = []
             lens = []
             for cl in calls:
@@ -622,6 +732,26 @@ def check_sites(ctx, c):
                     es = es[:-1]
                 got.extend(es)
                 lens.append(len(es))
+            # the latency of successive datagrams: one nanosecond later each unless it is None -- 0, 0.0 and False are latencies
+            no_time = via == 'ctx' and not sync        # BundleNetAddr without a server sends with latency None
+            t0 = None if no_time else pyval(k['time'])
+            want, cur = [], t0
+            clumped_path = len(calls) > 1
+            for j in range(len(calls)):
+                if sync:
+                    want.append(cur)
+                    if cur is not None and clumped_path:
+                        cur = cur + 1e-9
+                else:
+                    if cur is not None and clumped_path:
+                        cur = cur + 1e-9
+                    want.append(cur)
+            seen = [cl['args'][0] for cl in calls]
+            if len(calls) != 1 or True:
+                wt = [None if w is None else (w if isinstance(w, bool) else (I(w) if isinstance(w, int) else Fl(w))) for w in want]
+                if clumped_path and seen != wt or (not clumped_path and calls and seen[0] != (None if no_time else k['time'])):
+                    fail('C06:%s_latency' % k['kind'], '%s: the bundles were sent with latencies %s, expected %s (latency %s)'
+                         % (k['kind'], show(seen[:4]), show(wt[:4]), show(k['time'])), k, {'latencies': [show(x) for x in seen[:6]]}, 'bundle_roundtrip')
             if got != k['els']:
                 fail('C06:%s_elements_lost' % k['kind'], '%s did not carry every element exactly once and in order: %d elements in, %d out'
                      % (k['kind'], len(k['els']), len(got)), k, {'clump_lengths': lens}, 'clump_partition')
@@ -677,7 +807,25 @@ def correspond(ctx):
         if 'crash' in o:
             c.failures.append(Failure('correspondence', 'implementation runner crashed on a case: ' + o['crash'], replay={'case': k}))
             continue
-        term = coq_arg(k['v'], iter(o['tags']))
+        tags = list(o['tags'])
+        if k['kind'] == 'rawbundle':
+            tags[0] = k['tt']
+        else:
+            want = []
+            expected_tags(k.get('itf', 'nrt'), float(k.get('send_time', 0.0)), k['v'], want)
+            if [str(x) for x in want] != tags:
+                bad = [(a, b) for a, b in zip(want, tags) if str(a) != b][:1]
+                c.failures.append(Failure('correspondence', '_get_timetag (%s interface, send time %s) gives %s for a bundle time in %s, expected %s'
+                                          % (k.get('itf', 'nrt'), k.get('send_time', 0.0), bad[0][1] if bad else tags, show(k['v']), bad[0][0] if bad else want),
+                                          signature='C06:timetag', found_input=True, theorem='bundle_roundtrip',
+                                          replay={'check': 'timetag', 'case': k, 'observed': tags, 'expected': [str(x) for x in want]}))
+        if o.get('mutated'):
+            c.failures.append(Failure('correspondence', 'building / predicting / clumping modified the caller\'s argument list %s' % show(k['v']),
+                                      signature='C06:argument_mutated', found_input=True, replay={'check': 'mutated', 'case': k}))
+        if o.get('rebuild_same') is False:
+            c.failures.append(Failure('correspondence', 'the same argument list built twice gives different bytes: %s' % show(k['v']),
+                                      signature='C06:rebuild_differs', found_input=True, replay={'check': 'rebuild', 'case': k}))
+        term = coq_arg(k['v'], iter(tags))
         c.count('class:' + k.get('cls', '?'))
         c.count('itf:' + k.get('itf', 'nrt'))
         b = o['build']
@@ -700,10 +848,16 @@ def correspond(ctx):
             c.count('build:refused:%s' % b[2])
             b_items.append('(%s, ((%d, []) : Z * bytes))' % (term, b[1]))
             b_idx.append(n)
+        if k['kind'] == 'rawbundle':
+            continue
         s_items.append('(%s, %s)' % (term, cz(o['pred'])))
         s_idx.append(n)
         c.count('pred:' + ('number' if o['pred'] >= 0 else 'raises'))
         for cl in o.get('clumps', []):
+            if cl.get('partition') is False:        # order and identity of the elements across the clumps, on the real library
+                c.failures.append(Failure('correspondence', '_clump_bundle(%s, size=%d) does not carry every element exactly once and in order'
+                                          % (show(k['v'][1:])[:200], cl['size']), signature='C06:clump_partition', found_input=True, theorem='clump_partition',
+                                          replay={'check': 'clump', 'case': k if len(json.dumps(k)) < 20000 else {'cls': k['cls']}, 'impl': cl}))
             exp = '(%d, [])' % cl['err'] if 'err' in cl else '(0, [%s])' % '; '.join(str(x) for x in cl['lens'])
             k_items.append('(%s, %s, (%s : Z * list Z))' % (cz(cl['size']), term, exp))
             k_idx.append((n, cl['size']))
@@ -750,7 +904,13 @@ def correspond(ctx):
 
     # _strpad4 on a range
     ns = list(range(0, 70)) + [rng.randrange(0, 70000) for _ in range(60)] + [65500, 65501, 65502, 65503, 65504]
-    sp = ctx.impl('c06_osc', {'cases': [{'kind': 'strpad4', 'n': ns}]})['out'][0]['vals']
+    spo = ctx.impl('c06_osc', {'cases': [{'kind': 'strpad4', 'n': ns}]})['out'][0]
+    sp = spo['vals']
+    for n_, a, e in zip(ns, sp, spo.get('enc', [])):
+        if e is not None and a != e:        # the predictor's padding against the encoder's, on the real library
+            c.failures.append(Failure('correspondence', '_strpad4(%d) = %d but write_string pads a string of %d bytes to %d' % (n_, a, n_, e),
+                                      signature='C06:strpad4_vs_encoder', found_input=True, theorem='size_upper_bound',
+                                      replay={'check': 'strpad4', 'n': n_, 'predicted': a, 'encoder': e}))
     sp_items = ['(%d, %d)' % (a, b) for a, b in zip(ns, sp)]
 
     runs = [
@@ -788,7 +948,13 @@ def correspond(ctx):
                 c.failures.append(Failure('correspondence', 'model parser and OscPacket disagree on datagram %r' % d[:200], replay={'check': name, 'dgram': d.hex()}))
             else:
                 c.failures.append(Failure('correspondence', '_strpad4(%d): model and implementation disagree' % ref, replay={'check': name, 'n': ref}))
-    check_sites(ctx, c)
+    try:
+        check_sites(ctx, c)
+    except fw.ImplError:
+        raise
+    except Exception as e:          # the monitor itself must not hide a finding behind a traceback
+        c.failures.append(Failure('correspondence', 'use-site monitor could not interpret what the implementation did: %s: %s' % (type(e).__name__, e),
+                                  replay={'check': 'sites', 'error': repr(e)}))
     c.rule = ('argument trees (depth <= 4: None/bool/int32 boundaries/float/ASCII and 1-4-byte UTF-8 str/blobs of every length 1..17/'
               'message- and bundle-shaped lists/array markers/latencies) plus a malformed stream (ints out of int32, empty blob, '
               'unsupported types, NUL in str and address, unbalanced markers, bad lists, sub-bundle time) are built by the real '
@@ -890,6 +1056,18 @@ def probe_trees(ctx):
     return ts
 
 
+def nested_time_violation(dec, outer=None):
+    """(outer, inner) time tags of a nested bundle earlier than its enclosing bundle, searched in a decoded packet and in its blobs"""
+    if dec[0] == 'bundle':
+        if outer is not None and dec[1] < outer:
+            return (outer, dec[1])
+        for e in dec[2]:
+            r = nested_time_violation(e, dec[1])
+            if r:
+                return r
+    return None
+
+
 def has_nul_str(v):
     if isinstance(v, str):
         return '\x00' in v
@@ -924,6 +1102,9 @@ def search(ctx, failures):
 
     trees = probe_trees(ctx)
     cases = [{'kind': k, 'v': t, 'send_time': 0.0, 'itf': 'nrt'} for k, t in trees]
+    for outer in (False, I(0), Fl(0.0), Fl(-0.0), Fl(0.5)):
+        for inner in (None, Fl(-1.0)) + ((Fl(0.25),) if outer == Fl(0.5) else ()):
+            cases.append({'kind': 'bundle', 'v': [outer, [S('/a')], [inner, [S('/b'), I(0)]]], 'send_time': 0.0, 'itf': 'base'})
     out = ctx.impl('c06_osc', {'cases': cases}, timeout=900)['out']
     for k, o in zip(cases, out):
         if 'build' not in o or o['build'][0] != 'ok':
@@ -954,6 +1135,12 @@ def search(ctx, failures):
             why = 'decodes to different values'
         except osc10.Osc10Error as e:
             ok, why, dec = False, 'is not OSC 1.0: %s' % e, None
+        if ok and dec is not None:
+            bad = nested_time_violation(dec)
+            if bad:
+                report('C06:nested_bundle_time', 'accepted for sending, but a nested bundle carries time tag %d, earlier than its enclosing bundle\'s %d (OSC 1.0; _check_subtime): %s'
+                       % (bad[1], bad[0], show(k['v'])), {'probe': 'roundtrip', 'case': k, 'dgram': dgram.hex(), 'expected': 'refused (ValueError)',
+                                                           'command': './check C06 --replay <this file>'}, 'bundle_roundtrip')
         if not ok:
             nul = has_nul_str(v)
             report('C06:nul_in_string_altered' if nul else 'C06:roundtrip',
